@@ -71,7 +71,7 @@ def _(b, k):
     return Call(matricize, b.arr(SHAPE, k), [2, 0], [1])
 
 
-@entry("backend.index_update", ARR, ALLDT, inplace={"": [["args", "0"]]})
+@entry("backend.index_update", ARR, ALLDT, inplace={"": [["args", "0"], ["kwargs", "tensor"]]})
 def _(b, k):
     t = tl()
     return Call(t.index_update, b.arr((3, 4), k), t.index[:, 1], b.arr((3,)))
@@ -431,7 +431,8 @@ def _(b, k):
 
 @entry("cp_tensor.cp_mode_dot", ["%s_copy%s" % (f, c) for f in ("obj", "tuple") for c in ("True", "False")]
        + ["vector_copyTrue", "vector_copyFalse", "keepdim_copyTrue", "invalid_copyTrue", "invalid_copyFalse"], ALLDT,
-       inplace={"copy=False": [["args", "0", "factors"], ["args", "0", "1"], ["args", "0", "shape"]]})
+       inplace={"copy=False": [["args", "0", "factors"], ["args", "0", "1"], ["args", "0", "shape"],
+                               ["kwargs", "cp_tensor", "factors"], ["kwargs", "cp_tensor", "1"], ["kwargs", "cp_tensor", "shape"]]})
 def _(b, k):
     f = tl().cp_mode_dot
     copy = k.endswith("True")
@@ -447,7 +448,7 @@ def _(b, k):
 
 
 @entry("cp_tensor.CPTensor.mode_dot", ("copyTrue", "copyFalse"), ALLDT,
-       inplace={"copy=False": [["args", "0", "factors"], ["args", "0", "shape"]]})
+       inplace={"copy=False": [["args", "0", "factors"], ["args", "0", "shape"], ["kwargs", "self", "factors"], ["kwargs", "self", "shape"]]})
 def _(b, k):
     from tensorly.cp_tensor import CPTensor
     copy = k.endswith("True")
@@ -513,7 +514,7 @@ def _(b, k):
 
 @entry("tucker_tensor.tucker_mode_dot", ["%s_copy%s" % (f, c) for f in ("obj", "tuple") for c in ("True", "False")]
        + ["vector_copyTrue", "vector_copyFalse", "invalid_copyFalse"], ALLDT,
-       inplace={"copy=False": [["args", "0", "factors"], ["args", "0", "1"]]})
+       inplace={"copy=False": [["args", "0", "factors"], ["args", "0", "1"], ["kwargs", "tucker_tensor", "factors"], ["kwargs", "tucker_tensor", "1"]]})
 def _(b, k):
     f = tl().tucker_mode_dot
     copy = k.endswith("True")
